@@ -156,6 +156,9 @@ func cmdCheck(prop, tier string) int {
 				termMissing = append(termMissing, fmt.Sprintf("%s loop %d", g.key, li.ord))
 			}
 		}
+		if g.partialSkipped > 0 {
+			warnings = append(warnings, fmt.Sprintf("%s: partial contract: only its call-site/nocall clauses are proved; %d other obligations (ensures, frame, safety, callee preconditions) NOT generated and its contract stays assumed", g.key, g.partialSkipped))
+		}
 		if g.nosafe > 0 {
 			warnings = append(warnings, fmt.Sprintf("%s: %d memory-safety obligations NOT generated (contract says nosafety): safety of this function is not claimed", g.key, g.nosafe))
 		}
